@@ -445,9 +445,21 @@ def alloc_extract():
     return ex
 
 
+def alloc_bk_extract():
+    ex = alloc_extract()
+    ex += [('lwekeyswitch.cpp', 'LweKeySwitchKey::LweKeySwitchKey'), ('lwekeyswitch.cpp', 'LweKeySwitchKey::~LweKeySwitchKey')]
+    ex += [(KS, f) for f in ('alloc_LweKeySwitchKey', 'free_LweKeySwitchKey', 'init_LweKeySwitchKey', 'destroy_LweKeySwitchKey', 'new_LweKeySwitchKey', 'delete_LweKeySwitchKey')]
+    ex += [('lwebootstrappingkey.cpp', 'LweBootstrappingKey::LweBootstrappingKey'), ('lwebootstrappingkey.cpp', 'LweBootstrappingKey::~LweBootstrappingKey'),
+           (BN_, 'init_LweBootstrappingKey'), (BN_, 'destroy_LweBootstrappingKey')]
+    return ex
+
+
 def alloc_groups(tag, tier):
     shapes = [(1, 2), (2, 3)] if tier == 'quick' else [(1, 1), (1, 2), (1, 3), (2, 2), (2, 3), (3, 2), (1, 8)]
-    return [Group('%s.lifecycle.k=%d.l=%d' % (tag, K, L), 'c16_alloc.c', 'h_alloc', extract=alloc_extract(), defines={'VERIF_K': K, 'VERIF_L': L},
+    bk = [Group('%s.lifecycle.LweBootstrappingKey.k=%d.l=%d' % (tag, K, L), 'c16_alloc.c', 'h_alloc_bk', extract=alloc_bk_extract(),
+                defines={'VERIF_K': K, 'VERIF_L': L, 'H_ALLOC_BK': None}, unwind=max((K + 1) * L, 8 * K) + 3, cbmc=['--memory-leak-check'], timeout=1800,
+                instance={'k': K, 'l': L, 'n': 2, 'N': 2, 't': 2, 'basebit': 1}) for (K, L) in ([(1, 2), (2, 2)] if tier == 'quick' else shapes[:5])]
+    return bk + [Group('%s.lifecycle.k=%d.l=%d' % (tag, K, L), 'c16_alloc.c', 'h_alloc', extract=alloc_extract(), defines={'VERIF_K': K, 'VERIF_L': L},
                   unwind=(K + 1) * L + 3, cbmc=['--memory-leak-check'], timeout=1800, instance={'k': K, 'l': L}) for (K, L) in shapes]
 
 
